@@ -252,24 +252,30 @@ def run_unit(unit, repo='/repo', tier='quick', seed=0):
             else:
                 hard.append('%s @%s' % (msg.split('\n')[0][:300], origin(line)))
             continue
-        # which function does the failure belong to?  (a precondition's primary span is in the callee's contract:
-        # use the call-site span, which Verus gives as a secondary span)
+        # which function does the failure belong to?
+        #   precondition: primary span = the call site (owner), secondary span "failed precondition" = the callee's clause
+        #   postcondition: primary span = the failed ensures clause, secondary = the end of the body (same function)
         owner_line = line
+        clause_line = line
+        clause_sp = prim[0] if prim else None
+        owner_sp = prim[0] if prim else None
         if kind == 'precondition' and sec:
-            owner_line = sec[0]['line_start']
+            clause_line = sec[0]['line_start']
+            clause_sp = sec[0]
         if kind == 'postcondition' and sec:
             owner_line = sec[0]['line_start']
+            owner_sp = sec[0]
         fn = fn_at(owner_line)
-        clause = prim[0]['text'][0]['text'].strip() if prim and prim[0].get('text') else ''
+        clause = clause_sp['text'][0]['text'].strip() if clause_sp and clause_sp.get('text') else ''
         site = origin(owner_line)
         callee = ''
         if kind == 'precondition':
-            callee = fn_at(line)
+            callee = fn_at(clause_line) if sec else '?'
             kname = 'precondition-of-%s' % callee if callee != '?' and callee != fn else 'precondition'
         else:
             kname = kind
-        owner_sp = (sec[0] if (kind in ('precondition', 'postcondition') and sec) else (prim[0] if prim else None))
         site_text = owner_sp['text'][0]['text'].strip()[:200] if owner_sp and owner_sp.get('text') else ''
+        line = clause_line
         fails.append({'function': fn, 'kind': kname, 'site': site, 'site_text': site_text, 'clause_at': origin(line), 'clause': clause[:300],
                       'message': msg.split('\n')[0][:300], 'rendered': d.get('rendered', '')[:4000],
                       'obligation': '%s::%s::%s@%s' % (unit, fn, kname, site)})
